@@ -899,12 +899,13 @@ func engineA(c *core.Ctx) error {
 		{"MCSearchers_c08_replay_m.cfg", qs.Layout{Segs: []int{3}, Deleted: []int{1}}, mrg, 3},
 		// a force-merged first segment followed by a fresh one: per-segment state of the
 		// unadorned (score none) optimisations
-		{"MCSearchers_c08_replay_q.cfg", qs.Layout{Segs: []int{2, 1}, Deleted: []int{1}}, mrg, 3},
+		{"MCSearchers_c08_replay_t.cfg", qs.Layout{Segs: []int{2, 2}, Deleted: []int{1}}, mrg, 3},
 	}
 	if c.Thorough() {
 		srcs = []srcA{
 			{"MCSearchers_c08_replay_t.cfg", qs.Layout{Segs: []int{2, 2}, Deleted: []int{1}}, mem, 3},
 			{"MCSearchers_c08_replay_tm.cfg", qs.Layout{Segs: []int{4}, Deleted: []int{1}}, mrg, 3},
+			{"MCSearchers_c08_replay_t.cfg", qs.Layout{Segs: []int{2, 2}, Deleted: []int{1}}, mrg, 3},
 			{"MCSearchers_c08_replay_td.cfg", qs.Layout{Segs: []int{2, 1}, Deleted: []int{1}}, mem, 2},
 		}
 	}
